@@ -222,10 +222,11 @@ impl Prop for C01 {
         let entry = if which < 12 {
             let kind = *r.pick(&Kind::ALL);
             let v6 = r.chance(1, 4);
-            let framing = *r.pick(&[Framing::Ethernet, Framing::Ethernet, Framing::RawIp, Framing::Null1e, Framing::NullAf]);
+            let foreign = Framing::NullFamily { fam: *r.pick(&[2u8, 10, 24, 28, 30]), big_endian: r.chance(1, 2) };
+            let framing = *r.pick(&[Framing::Ethernet, Framing::Ethernet, Framing::Ethernet, Framing::RawIp, Framing::RawIp, Framing::Null1e, Framing::NullAf, foreign]);
             let mut names = vec![];
             let trace = faulty_trace(r, kind, v6, framing, &mut names);
-            let pc = probe_conns(r, v6, if framing == Framing::NullAf { Framing::Ethernet } else { framing });
+            let pc = probe_conns(r, v6, if matches!(framing, Framing::NullAf | Framing::NullFamily { .. }) { Framing::Ethernet } else { framing });
             let lens: Vec<usize> = pc.iter().map(|c| c.steps.len()).collect();
             let order = conn::merge_order(r, &lens, MergeMode::RoundRobin);
             let base = trace.last().map(|p| p.t).unwrap_or(0) + 1_000_000;
